@@ -76,8 +76,8 @@ prop("C10", "exploration",
           "load_database at seeded prefixes and at the end; full observation before/after compared; non-trivial = at least one "
           "reload of a non-empty library; distinct = new plan digest reaching a new observation hash")
 prop("C16", "exploration",
-     quick=[("mixed_pure", "fast", 900), ("tracks_pure", "fast", 300)],
-     thorough=[("mixed_pure", "fast", 50000), ("tracks_pure", "fast", 20000), ("crates_pure", "fast", 20000)],
+     quick=[("mixed_pure", "fast", 900), ("tracks_pure", "fast", 300), ("hostile_pure", "fast", 900)],
+     thorough=[("mixed_pure", "fast", 50000), ("tracks_pure", "fast", 20000), ("crates_pure", "fast", 20000), ("hostile_pure", "fast", 40000)],
      relevant=["purity_checked"],
      rule="in every state reached by the mixed workload the monitor brackets the full block of observing calls with VFS "
           "write/truncate counters, sqlite3_total_changes and the image hash, and repeats the observation with the clock "
